@@ -601,6 +601,27 @@ let descr_mode (path : string) =
    with End_of_file -> ());
   if !pending then flush_descr ()
 
+
+(* ---------------------------------------------------------------- names mode (C18)
+   input (hz -names): N x<name> x<uuid part> x<extension> <listed 0|1>; the model's uuid_ext and
+   uuid_shaped on the same name *)
+let names_mode (path : string) =
+  let ic = open_in path in
+  (try
+     while true do
+       let l = input_line ic in
+       match String.split_on_char ' ' l with
+       | [ "N"; name; u; e; listed ] ->
+           let nm = xstr name in
+           let (mu, me) = uuid_ext nm in
+           let ml = match listed_uuid nm with Some _ -> "1" | None -> "0" in
+           let a = Printf.sprintf "x%s x%s %s" (hex_of_bytes mu) (hex_of_bytes me) ml in
+           let b = Printf.sprintf "%s %s %s" u e listed in
+           if a = b then print_endline ("same name " ^ ml) else print_endline ("DIFF name " ^ name ^ " impl[" ^ b ^ "] model[" ^ a ^ "]")
+       | _ -> ()
+     done
+   with End_of_file -> ())
+
 (* ---------------------------------------------------------------- linearizability mode (C08)
    A concurrent history recorded on ONE handle (hz -lin): a sequential prefix in the usual trace
    format, the line "conc", then one line per concurrent call
@@ -715,6 +736,7 @@ let lin_mode (path : string) =
 let () =
   if Array.length Sys.argv > 2 && Sys.argv.(1) = "-lin" then (lin_mode Sys.argv.(2); exit 0);
   if Array.length Sys.argv > 2 && Sys.argv.(1) = "-snake" then (snake_mode Sys.argv.(2); exit 0);
+  if Array.length Sys.argv > 2 && Sys.argv.(1) = "-names" then (names_mode Sys.argv.(2); exit 0);
   if Array.length Sys.argv > 2 && Sys.argv.(1) = "-descr" then (descr_mode Sys.argv.(2); exit 0);
   if Array.length Sys.argv > 2 && Sys.argv.(1) = "-clone" then (clone_mode Sys.argv.(2); exit 0);
   let ic = if Array.length Sys.argv > 1 then open_in Sys.argv.(1) else stdin in
